@@ -17,7 +17,7 @@ from harness.props import xpath_common as X
 MANIFEST = dict(
     category="proof",
     technique="Lean 4 theorems over a hand-written model of the xpath engine + differential correspondence with the implementation",
-    text="Lean (model of n0dict._find with the fix patches C06-a, C06-c, C06-b and C06-e applied), for the list of dict records at "
+    text="Lean (model of n0dict._find / n0list._find with the fix patches C06-a, C06-c, C06-b, C06-e and C06-f applied), for the list of dict records at "
          "ANY position of a dict-rooted tree, every list length and every mix of present/absent fields. Canonical path P (keys "
          "and indexes, as xpath() prints it): C06_star (`P[*]/f` and the shorthand `P/f` return, through get, item access and "
          "first, exactly [r[f] for r in rs if f in r] in list order; the default / IndexError when that is empty; first unwraps a "
@@ -58,25 +58,67 @@ MANIFEST = dict(
          "true()/false()), no float value of k and a non-ASCII literal only against non-numeric k (model scope guard); for "
          "chained selections `items`, where an outer record has it, is a list of dict records (or one dict record). No statement "
          "is left open; positive examples for the four repaired findings (C06_numeric_example, C06_empty_literal_example, "
-         "C06_chained_example, C06_empty_inner_example). Differential only: index spellings with blanks inside the brackets, "
-         "list roots, a scalar `items` "
-         "(the engine raises IndexError there, which aborts the whole fan-out - outside the property's quantifier, see notes). The "
+         "C06_chained_example, C06_empty_inner_example). N0LIST-ROOTED trees (fix C06-f: n0list._find keeps itself as self of "
+         "the dict-side search, so that '..' - and with it every condition - resolves the found text from the root list and not "
+         "inside the element; a condition or a name applied to a list is handed to n0dict._find, which supplies the skipped [*]): "
+         "for the root list being the record list itself, C06_star_list_root (`[*]/f`, `/[*]/f` and the shorthand `/f`) and "
+         "C06_pred_list_root (`[k op v]/f`, `/[k op v]/f`, `k[text() op v]/../f`, `/k[text() op v]/../f`; every operator and "
+         "literal spelling) give the same comprehensions through get, item access and first (token level, both values of "
+         "return_lists: xa_star_list_root, xa_pred_list_root in Proofs/XPathAudit.lean, over the loop of n0list._find - "
+         "xa_findL_loop); the audit's witnesses, an indexed / starred / conditioned P in front of an inner predicate included, "
+         "are evaluated in C06_list_root_example. Differential only: index spellings with blanks inside the brackets, "
+         "a record list DEEPER in an n0list-rooted tree (P starting with an index: 15 % of the generated trees keep a list root, "
+         "all forms and chained selections, evaluator and model stream), a scalar `items` "
+         "(fix C06-h: a single value does not satisfy a condition, that parent contributes nothing - before, IndexError left the "
+         "fan-out loop and hid the selections of all other parents; C06_scalar_inner_example; 20 % of the generated order lists "
+         "carry scalar `items` in some parents). The "
          "model of the resolver is compared with the real code on all selecting forms and chained selections at depth 0-3 under "
          "random spellings of P (list elements at varying indexes), with string, int, bool, float and None fields, list-valued "
          "projected fields, missing fields, duplicates, occurring and non-occurring literals, the empty literal, empty inner "
          "lists, single-record `items`; the statement (list-comprehension oracle, numeric fields compared as numbers; per-parent "
          "contributions for chained selections through get, item access, first and a repeated lookup) is executed on the "
          "implementation.",
-    note="unsuppressed verdicts of the evaluators: every form, chained selections included (no open finding).",
+    note="OPEN finding C06-g (literal values a condition cannot express): the predicate theorems carry the hypothesis PlainLit v "
+         "(no blanks, quotes, brackets, '/', '=', '~', '*', '?', '%', not true()/false()); for a value v outside it that occurs "
+         "in the data the engine misses the record or selects another one (counter-examples C06_literal_tilde_cex, "
+         "C06_literal_slash_cex, C06_literal_blank_cex - the [k=v] and the text() form, declared equivalent, differ -, "
+         "C06_literal_quoted_cex; '%41' selects the record whose k is 'A'). Such values ARE generated (10 % of the record lists draw "
+         "their values from ODD_VALS, with working neighbours '%4', '100%', 'a=b', 'a!b', ']', 'a[b', \"'a\", 'true'); a failing "
+         "case is suppressed only when the literal of its condition is in c06_g_class (percent escape, '~', '/', '][', '==', '!=', "
+         "'=', a blank at either end, the same quote at both ends, true()/false() in any case); every other failure is reported. The "
+         "model answers `unsupported` for a '%' in a condition (url-unquoting is not modelled): those cases are counted as "
+         "unsupported in stream xp.get/select, not compared - for them only the evaluator speaks. All other verdicts are "
+         "unsuppressed: every form, chained selections and list roots included.",
     design_ref="5/C06",
 )
 
 FIELDS = ["id", "k", "f", "name", "sku"]
 SVALS = ["1", "2", "A", "B", "ab", "x y", "b", "C++", "a+b", "C", "a b", "5'", "'tis", "O'B", "$N0t_F0uNd$"]
 NVALS = [1, 2, 0, 7, 9007199254740993, 9007199254740992, -3]
+# literal values that occur in the data but that a condition cannot express (finding C06-g), with neighbours that work:
+# percent escapes, operator characters, the path separators, blanks at the ends, a quote at both ends, true()/false()
+ODD_VALS = ["%41", "a%2Fb", "%4", "100%", "a~b", "~", "=", "a=b", "a!=b", "a==b", "a!b", "a/b", "/", "a][b", "]", "a[b",
+            " x", "x ", " ", "\tx", "'a'", '"a"', "'", '"', "'a", "true()", "False()", "true"]
+ODD_SHARE = 0.10
 
 
-def gen_records(rng, numeric=False, nested=False):
+def pct_hex(v):
+    import re
+
+    return re.search(r"%[0-9A-Fa-f]{2}", v) is not None
+
+
+def c06_g_class(v):
+    """finding C06-g: the literal text v cannot be written in a condition so that exactly the records with that value are selected"""
+    if not isinstance(v, str):
+        return False
+    return (pct_hex(v) or "~" in v or "/" in v or "][" in v or "==" in v or "!=" in v or v == "="
+            or v != v.strip()
+            or (len(v) >= 1 and v[0] in "'\"" and v[-1] == v[0])
+            or v.lower() in ("true()", "false()"))
+
+
+def gen_records(rng, numeric=False, nested=False, odd=False):
     n = rng.choice([0, 1, 2, 3, 4, 5])
     recs = []
     for _ in range(n):
@@ -84,6 +126,8 @@ def gen_records(rng, numeric=False, nested=False):
         for f in rng.sample(FIELDS, rng.choice([1, 2, 3, 4])):
             if numeric and rng.random() < 0.4:
                 r[f] = rng.choice(NVALS) if rng.random() < 0.97 else rng.choice([1.0, 2.5])
+            elif odd and rng.random() < 0.5:
+                r[f] = rng.choice(ODD_VALS)
             else:
                 r[f] = rng.choice(SVALS)
         if nested and rng.random() < 0.7:
@@ -92,7 +136,7 @@ def gen_records(rng, numeric=False, nested=False):
     return recs
 
 
-def gen_orders(rng, hidden=False):
+def gen_orders(rng, hidden=False, scalar=False):
     """outer records that share few key values, each with a (possibly empty / missing) inner list whose records share
     few key values too: chained selections then select in several parents; hidden=True: some parents carry ONE record
     (a dict) under `items` instead of a list of records"""
@@ -116,16 +160,25 @@ def gen_orders(rng, hidden=False):
             if hidden and items and rng.random() < 0.4:
                 # "hidden list": ONE record stored directly instead of a one-element list of records
                 r["items"] = items[0]
+            elif scalar and rng.random() < 0.3:
+                # a single value where the records are expected (fix C06-h): this parent contributes nothing, the others are selected
+                r["items"] = rng.choice(["x", "B", 5, None, ""])
             else:
                 r["items"] = items
         recs.append(r)
     return recs
 
 
-def wrap_at_depth(rng, recs, depth):
-    """tree with the record list at path P (depth keys / indexes)"""
+LIST_ROOT = 0.15   # share of the trees that keep a list as their root (n0list-rooted: pos starts with an index, or is empty)
+
+
+def wrap_at_depth(rng, recs, depth, list_root=None):
+    """tree with the record list at path P (depth keys / indexes); the root is a dict, or (list_root) a list: the record
+    list itself (pos == []) or a list that holds it at some depth (pos starts with an index)"""
     pos = []
     node = recs
+    if list_root is None:
+        list_root = rng.random() < LIST_ROOT
     for _ in range(depth):
         if rng.random() < 0.7:
             k = rng.choice(["a", "b", "orders", "C"])
@@ -137,10 +190,21 @@ def wrap_at_depth(rng, recs, depth):
             before = rng.choice([0, 1, 1, 2])
             node = ["pad"] * before + [node] + ["tail"] * rng.choice([0, 0, 1, 2])
             pos.insert(0, before)
-    if not isinstance(node, dict):
+    if not isinstance(node, dict) and not list_root:
         node = {"root": node}
         pos.insert(0, "root")
+    elif isinstance(node, dict) and list_root:
+        before = rng.choice([0, 1, 1, 2])
+        node = ["pad"] * before + [node] + ["tail"] * rng.choice([0, 0, 1, 2])
+        pos.insert(0, before)
     return node, pos
+
+
+def spell_P(rng, tree, pos, spelled):
+    """the text of P: canonical relative spelling or a random one; the root itself (a record list that is the root) is ''"""
+    if not pos:
+        return rng.choice(["", "", "/", "//"]) if spelled else ""
+    return X.render(rng, tree, pos) if spelled else X.render_rel(tree, pos)
 
 
 def lit(rng, v, quoted):
@@ -198,7 +262,10 @@ def make_xp(P, form, k, f, vlit):
 
 
 def classify(c):
-    """known-finding class of a case (None = inside the scope where the property must hold); no open finding"""
+    """known-finding class of a case (None = inside the scope where the property must hold)"""
+    if c06_g_class(c.get("v")) or c06_g_class(c.get("v1")):
+        return "C06-g"
+    # a text field that holds a percent escape is decoded on the way too: the comparison is made with the decoded literal
     return None
 
 
@@ -411,26 +478,38 @@ def run(ctx):
     cases, chained = [], []
     for _ in range(ctx.budget(1200, 30000)):
         numeric = rng.random() < 0.25
-        recs = gen_records(rng, numeric=numeric)
+        odd = rng.random() < ODD_SHARE
+        recs = gen_records(rng, numeric=numeric, odd=odd)
         tree, pos = wrap_at_depth(rng, recs, rng.choice([0, 1, 2, 3]))
-        P = X.render(rng, tree, pos) if rng.random() < 0.5 else X.render_rel(tree, pos)
+        P = spell_P(rng, tree, pos, rng.random() < 0.5)
         form = rng.choice(["star", "implicit", "eq", "eq", "text", "ne", "contains"])
+        if not pos and form != "star" and rng.random() < 0.4:
+            # the root list is the record list: the fan-out written out ([*][k=v]/f, [*]/k[text()=v]/../f, [*]/f) - the loop of
+            # n0list._find itself, with a '..' below it
+            P = rng.choice(["[*]", "/[*]", "//[*]"])
         k, f = rng.choice(FIELDS), rng.choice(FIELDS)
         occurring = [r[k] for r in recs if k in r]
-        v = rng.choice(occurring) if occurring and rng.random() < 0.7 else rng.choice(SVALS + ["zz", ""])
+        v = rng.choice(occurring) if occurring and rng.random() < 0.7 else rng.choice((ODD_VALS if odd else SVALS) + ["zz", ""])
         q = rng.choice(["", "", "d", "s"])
         vs = str(v)
         if vs == "" and q == "":
             q = "s"
+        if odd and q == "" and (vs != vs.strip() or vs[:1] in ("'", '"')):
+            q = rng.choice("sd")     # a bare literal cannot carry blanks at its ends or start with a quote: written quoted
+        if odd and vs in ODD_VALS and ((q == "s" and "'" in vs) or (q == "d" and '"' in vs)):
+            q = "d" if q == "s" else "s"   # an odd value that holds a quote is written in the other quote
         if " " in vs and q == "" and rng.random() < 0.5:
             q = "d"
         xp = make_xp(P, form, k, f, lit(rng, vs, q))
         cases.append({"tree": tree, "mode": rng.choice(["n0", "wrap"]), "pos": pos, "form": form, "k": k, "f": f, "v": v if isinstance(v, str) else vs, "xp": xp})
     ctx.evaluate("select", cases, check_select, in_known=in_known, nontrivial=lambda c: len(X.get_at(c["tree"], c["pos"])) > 1)
     for _ in range(ctx.budget(400, 8000)):
-        recs = gen_orders(rng, hidden=rng.random() < 0.5) if rng.random() < 0.65 else gen_records(rng, nested=True, numeric=rng.random() < 0.2)
+        recs = gen_orders(rng, hidden=rng.random() < 0.5, scalar=rng.random() < 0.2) if rng.random() < 0.65 \
+            else gen_records(rng, nested=True, numeric=rng.random() < 0.2)
         tree, pos = wrap_at_depth(rng, recs, rng.choice([0, 1, 2, 3]))
-        P = X.render_rel(tree, pos) if rng.random() < 0.5 else X.render(rng, tree, pos)
+        P = spell_P(rng, tree, pos, rng.random() >= 0.5)
+        if not pos and rng.random() < 0.4:
+            P = rng.choice(["[*]", "/[*]", "//[*]"])
         k1 = "id" if rng.random() < 0.6 else rng.choice(FIELDS)
         ids = [r[k1] for r in recs if k1 in r and "items" in r]
         v1 = rng.choice(ids) if ids and rng.random() < 0.8 else rng.choice(SVALS)
@@ -465,6 +544,8 @@ def run(ctx):
         "selecting": sum(1 for c in chained if sel_recs(c)),
         "several_parents": sum(1 for c in chained if len(sel_recs(c)) > 1),
         "hidden_parent_selected": sum(1 for c in chained if any(isinstance(r["items"], dict) for r in sel_recs(c))),
+        "scalar_items_next_to_selected_parents": sum(1 for c in chained if sel_recs(c) and any(
+            "items" in r and not isinstance(r["items"], (list, dict)) for r in X.get_at(c["tree"], c["pos"]))),
         "first_unwraps_to_single_value": sum(1 for c in chained if [len(x) for x in chained_oracle(X.get_at(c["tree"], c["pos"]), c)
                                                                    if isinstance(x, list)] == [1] and len(sel_recs(c)) == 1),
         "list_valued_field_selected": sum(1 for c in chained if c["f"] == "tags" and sel_recs(c)),
@@ -493,9 +574,21 @@ def run(ctx):
     forms = {}
     for c in cases:
         forms[c["form"]] = forms.get(c["form"], 0) + 1
+    ctx.extra["C06-g"] = {
+        "conditions_with_a_literal_in_the_class": sum(1 for c in cases if c06_g_class(c["v"])),
+        "of_them_with_a_percent_escape(model: unsupported)": sum(1 for c in cases if pct_hex(c["v"])),
+        "odd_value_lists": sum(1 for c in cases if any(x in ODD_VALS for r in X.get_at(c["tree"], c["pos"]) for x in r.values() if isinstance(x, str))),
+    }
+    ctx.extra["list_roots"] = {
+        "select_root_is_the_record_list": sum(1 for c in cases if not c["pos"]),
+        "select_list_root_deeper": sum(1 for c in cases if c["pos"] and isinstance(c["tree"], list)),
+        "chained_root_is_the_record_list": sum(1 for c in chained if not c["pos"]),
+        "chained_list_root_deeper": sum(1 for c in chained if c["pos"] and isinstance(c["tree"], list)),
+        "chained_list_root_selecting": sum(1 for c in chained if isinstance(c["tree"], list) and sel_recs(c)),
+    }
     ctx.extra["forms"] = forms
     ctx.extra["assumptions"] = [
         "record fields are plain names; literals are taken from / absent from the data",
-        "theorems: the record list at any position of a dict-rooted tree, every spelling of its path (prefix, ][ vs ]/[, index as i, -k, last(), last()-k, i+j), chained selections with `items` a list of dict records or one dict record, first() on them; index texts with blanks, list roots and scalar `items` are covered by B and C only",
-        "the implementation under test carries the fix patches C06-a, C06-c, C06-b and C06-e",
+        "theorems: the record list at any position of a dict-rooted tree, every spelling of its path (prefix, ][ vs ]/[, index as i, -k, last(), last()-k, i+j), chained selections with `items` a list of dict records or one dict record, first() on them; an n0list root that is the record list itself; index texts with blanks, record lists deeper in a list-rooted tree and scalar `items` are covered by B and C only",
+        "the implementation under test carries the fix patches C06-a, C06-c, C06-b, C06-e, C06-f and C06-h",
     ]
